@@ -261,7 +261,7 @@ def value_worker(task: Tuple) -> Dict[str, Any]:
             tol = Fraction(1, 10 ** 12) if exact else Fraction(1, 10 ** 9)
             label = f"{families.show(p) or '1'}*{families.show(u)}/{kind}"
             bare = measured.Unit(measured.IdentityPrefix, u.factors, u.dimension)
-            rp = value_replay(pc, uc, v)
+            rp = value_replay(pc, uc, v, kind)
 
             def ask(goal: Any, cond: Any, name: str) -> None:
                 st, _ = acc.P.check(cond, z3.Not(goal))
@@ -340,30 +340,34 @@ def value_worker(task: Tuple) -> Dict[str, Any]:
     return acc.finish()
 
 
-def value_replay(pc: str, uc: str, v: Fraction) -> str:
+def value_replay(pc: str, uc: str, v: Fraction, kind: str = "float") -> str:
+    mags = {"float": "(3.0, -2.5, 1.0, 1024.0)", "int": "(3, -2, 1, 1024)",
+            "dec": "(Decimal('3'), Decimal('-2.5'), Decimal('1'), Decimal('1024'))"}[kind]
     return families.REPLAY_IMPORTS + f"""import math
+from decimal import Decimal
 p, u = {pc}, {uc}
 v = {float(v)!r}       # base ** exponent
 vu = float(u.prefix.base) ** u.prefix.exponent if u.prefix.base else 1.0
 pu = p * u
 bad = []
 def close(x, want):
-    return abs(x - want) <= 1e-9 * abs(want)
-for m in (3.0, -2.5, 1.0, 1024.0):
+    return abs(float(x) - want) <= 1e-9 * abs(want)
+for M in {mags}:       # magnitudes of the numeric type the obligation failed for
+    m = float(M)
     try:
-        a = (m * pu).unprefixed()
+        a = (M * pu).unprefixed()
         if not close(a.magnitude, m * v * vu) or a.unit.prefix.base != 0: bad.append(('unprefixed', m, a))
-        b = (m * pu).in_unit(u)
+        b = (M * pu).in_unit(u)
         if not close(b.magnitude, m * v): bad.append(('to-bare', m, b))
-        c = (m * u).in_unit(pu)
+        c = (M * u).in_unit(pu)
         if not close(c.magnitude, m / v): bad.append(('from-bare', m, c))
-        if float(v).is_integer() and v >= 1 and isinstance(pu.prefix.exponent, int) and not (m * pu == (m * int(v)) * u):
+        if float(v).is_integer() and v >= 1 and isinstance(pu.prefix.exponent, int) and not (m * pu == (M * int(v)) * u):
             bad.append(('eq', m))
         for n in (-4, -1, 2, 3):
             if abs(math.log2(v * vu) * n) > 900: continue
-            d = ((m * pu) ** n).unprefixed()
+            d = ((M * pu) ** n).unprefixed()
             if not close(d.magnitude, m ** n * (v * vu) ** n): bad.append(('pow', n, m, d))
-        e = ((m * u) / pu).unprefixed()
+        e = ((M * u) / pu).unprefixed()
         if not close(e.magnitude, m / v): bad.append(('div', m, e))
     except Exception as ex:
         bad.append(('raised', m, type(ex).__name__, str(ex)[:80]))
